@@ -12,6 +12,11 @@ driver for the reconnect model (engine `reconnect`).  Time in ticks of 1/1024 s.
       reply: one record per op / round, separated by ` | `:
         `<events or -> ; c=<0|1> x=<0|1> o=<0|1> s=<sock|-> ca=<id|-> l=<id|->`
         events: `+<id>` socket opened, `-<id>` closed, `?<id>=<code>` connect_ex
+  tls <timeout> <rec> <retry> <op> … [ / <kind> <k> <h> <dt> … ]   the same through a ClientTls: service ops carry
+      `<code>:<k|w|e>` (answer of connect_ex : answer of do_handshake = ok | want | fail); after `/` the handshake
+      completes at its h-th call; events `#<id>=<k|w|e>` do_handshake, `!` handshake error escaped;
+      record `… ; c=<connected> a=<accepted> x= o= s= ca= l=`
+  regiontls D28 …  the D28 region for the tls form
   region D28 <timeout> <rec> <retry> <op> … / <kind> <k> <dt> …   → true/false  (discardsInProgress in the listening phase)
 -/
 namespace Ioflo.Drv.Reconnect
@@ -57,6 +62,61 @@ def listenShow (k : Nat) (kind : Kind) : Client → List Int → List String
     let (c', ev) := kind.service { c with now := c.now + dt } (ansOf k)
     showRec c' ev :: listenShow k kind c' dts
 
+/-! TLS client -/
+
+def shake? (c : Char) : Option Shake :=
+  if c == 'k' then some .ok else if c == 'w' then some .want else if c == 'e' then some .fail else none
+
+def codeShake? (r : List Char) : Option (Nat × Shake) :=
+  match (String.ofList r).splitOn ":" with
+  | [code, h] => do
+      let code ← code.toNat?
+      let a ← match h.toList with | [ch] => shake? ch | _ => none
+      pure (code, a)
+  | _ => none
+
+def top? (w : String) : Option TOp :=
+  match w.toList with
+  | ['L'] => some .loss
+  | ['c'] => some .close
+  | ['o'] => some .reopen
+  | 'A' :: r => (String.ofList r).toInt?.map .advance
+  | 'B' :: r => (codeShake? r).map (fun p => .clientServiceConnect p.1 p.2)
+  | 'S' :: r => (codeShake? r).map (fun p => .stackServiceConnect p.1 p.2)
+  | 'H' :: r => (codeShake? r).map (fun p => .patronConnect p.1 p.2)
+  | _ => none
+
+def showShake : Shake → String
+  | .ok => "k"
+  | .want => "w"
+  | .fail => "e"
+
+def showTEvent : TEvent → String
+  | .base e => showEvent e
+  | .shake id a => "#" ++ toString id ++ "=" ++ showShake a
+  | .raised => "!"
+
+def showTRec (t : Tls) (ev : List TEvent) : String :=
+  (if ev.isEmpty then "-" else " ".intercalate (ev.map showTEvent)) ++ " ; c=" ++ b01 t.connected ++
+  " a=" ++ b01 t.c.accepted ++ " x=" ++ b01 t.c.cutoff ++ " o=" ++ b01 t.c.opened ++ " s=" ++ optNat t.c.sock ++
+  " ca=" ++ optNat t.c.ca ++ " l=" ++ optNat t.c.localHa
+
+def trunShow : Tls → List TOp → Tls × List String
+  | t, [] => (t, [])
+  | t, op :: ops =>
+    let (t', ev) := tstep t op
+    let (t'', r) := trunShow t' ops
+    (t'', showTRec t' ev :: r)
+
+/-- handshake of latency `h`: want, want, …, ok from the `h`-th call on -/
+def hsOf (h : Nat) (n : Nat) : Shake := if n + 1 ≥ h then .ok else .want
+
+def tlistenShow (k h : Nat) (kind : Kind) : Tls → List Int → List String
+  | _, [] => []
+  | t, dt :: dts =>
+    let (t', ev) := kind.tlsService { t with c := { t.c with now := t.c.now + dt } } (ansOf k) (hsOf h)
+    showTRec t' ev :: tlistenShow k h kind t' dts
+
 def kind? (s : String) : Option Kind :=
   if s == "bare" then some .bare else if s == "stack" then some .stack
   else if s == "patron" then some .patron else none
@@ -85,6 +145,31 @@ def reply (ws : List String) : Option String :=
         | _ => none
       let all := recs ++ recs2
       pure (if all.isEmpty then "-" else " | ".intercalate all)
+  | "tls" :: t :: r :: retry :: rest => do
+      let c ← initOf t r retry
+      let t0 : Tls := ⟨c, false, 0⟩
+      let (pre, post) := splitSlash rest
+      let ops ← pre.mapM top?
+      let (t1, recs) := trunShow t0 ops
+      let recs2 ← match post with
+        | [] => some []
+        | kind :: k :: h :: dts => do
+            let kind ← kind? kind; let k ← k.toNat?; let h ← h.toNat?; let dts ← dts.mapM String.toInt?
+            pure (tlistenShow k h kind t1 dts)
+        | _ => none
+      let all := recs ++ recs2
+      pure (if all.isEmpty then "-" else " | ".intercalate all)
+  | "regiontls" :: "D28" :: t :: r :: retry :: rest => do
+      let c ← initOf t r retry
+      let t0 : Tls := ⟨c, false, 0⟩
+      let (pre, post) := splitSlash rest
+      let ops ← pre.mapM top?
+      let t1 := (Ioflo.Reconnect.trun t0 ops).1
+      match post with
+      | kind :: k :: h :: dts => do
+          let kind ← kind? kind; let k ← k.toNat?; let h ← h.toNat?; let dts ← dts.mapM String.toInt?
+          pure (toString (tlsDiscardsInProgress (ansOf k) (hsOf h) kind t1 dts))
+      | _ => some "false"
   | "region" :: "D28" :: t :: r :: retry :: rest => do
       let c ← initOf t r retry
       let (pre, post) := splitSlash rest
